@@ -846,3 +846,31 @@ def gen_cfg_requery(rng, N, nmax=5):
         s.update(op="div_hist", entries=entries, q=q, ops=ops, alias=False)
         out.append(s)
     return out
+
+
+def gen_txt_fields(rng, N):
+    """name lists for the TXT field layer: clean names of every style, and hostile ones (commas,
+    leading/trailing blanks of several kinds, Unicode white space, empty strings)"""
+    WS = [" ", "\t", "\u00a0", "\u2003", "\u3000", "\x1f", "\u200a", "\u1680"]
+    out = []
+    for _ in range(N):
+        n = rng.randint(1, 6)
+        names = gen.gen_names(rng, n)
+        kind = rng.choice(["clean", "clean", "hostile", "hostile", "ws"])
+        if kind != "clean":
+            names = list(names)
+            for i in range(len(names)):
+                r = rng.random()
+                if r < 0.25:
+                    names[i] = rng.choice(WS) + names[i]
+                elif r < 0.5:
+                    names[i] = names[i] + rng.choice(WS)
+                elif r < 0.6 and kind == "hostile":
+                    names[i] = names[i] + "," + rng.choice(["", "x", " y"])
+                elif r < 0.65 and kind == "hostile":
+                    names[i] = ""
+                elif r < 0.75:
+                    names[i] = names[i] + rng.choice(WS) + "z"      # inner white space is fine
+        text = rng.choice([" a, b", "a,b,,c", " ,", "", ",", " x ", "\u00a0q\u2003, r\t", ", ".join(names), "  ".join(names)])
+        out.append({"op": "txt_fields", "names": list(names), "text": text, "_kind": kind})
+    return out
